@@ -1,6 +1,7 @@
 import PdtVerif.Lemmas.Beam
 import PdtVerif.Lemmas.BeamRun
 import PdtVerif.Lemmas.BeamComplete
+import PdtVerif.Lemmas.BeamStable
 /-!
 # C04 — beam search returns distinct, correctly scored, best-first paths per element
 
@@ -504,5 +505,260 @@ example : (completeFrom (exSpecs 5) 3 (some 1) 2 []).length = 7 := by decide +ke
 
 -- C04_normEos_range: eos = -2 with V = 3 is normalised to 1
 example : normEos 3 (some (-2)) = some (some 1) := by decide
+
+/-! ## The skeleton of the search does not depend on the arithmetic of the scores
+
+`BeamSearch` accumulates the scores in whatever floating dtype torch's promotion yields (the
+float32 start score with the language model's dtype). Two such computations of "the same" search
+differ in the values of the candidate scores only: each candidate of the one is a slightly
+perturbed candidate of the other. The theorems below compare two runs of the model that differ in
+*everything the property leaves open*: the selection function (how `topk` breaks ties), the
+language-model object and its state type, and the score rows, which may differ entrywise by up to
+`ε` (with the same tokens impossible) - a rounding error of the accumulated sum is such a
+perturbation, because it is a function of the history the sum belongs to. As long as every
+selection the first run makes is decided by a margin of more than `2 (t + 1) ε` at step `t`
+(`tieFree (margin ε)`, executable), both runs return the same counted tokens in the same slots,
+and their scores differ by at most `len · ε`. This is the rule the float-mode correspondence uses
+(paths are compared when the model's margins exceed the tolerance, scores within the tolerance).
+
+`accErr ε n = n · ε` (`C04_accErr_eq`); `Score.Close ε a b`: both `-inf`, or both finite and
+`|a - b| ≤ ε`; `SpecClose ε spec spec'`: every entry of every row is `Score.Close ε`. -/
+
+theorem C04_accErr_eq (ε : Rat) (n : Nat) : accErr ε n = (n : Rat) * ε := by
+  induction n with
+  | zero => simp [accErr]
+  | succ n ih => simp only [accErr, ih]; grind
+
+/-- The margin demanded of the selection at step `t`: twice the error `t + 1` perturbed rows can
+add up to. -/
+def margin (ε : Rat) (t : Nat) : Rat := accErr ε (t + 1) + accErr ε (t + 1)
+
+/-- **C04_topk_stable**: `topk` of a perturbed candidate vector. If every finite candidate the
+selection `inds` of `c` picked is more than `m ≥ 2ε` away from every other candidate, then ANY
+selection `inds'` (any tie-breaking) of ANY vector `c'` that is entrywise `ε`-close to `c` picks,
+position by position, the same finite candidates, and a `-inf` candidate wherever `inds` had to
+pick one. -/
+theorem C04_topk_stable {m ε : Rat} (hε : 0 ≤ ε) (hm : ε + ε ≤ m) {c c' : List Score} {K : Nat}
+    {inds inds' : List Nat} (hlen : c.length = c'.length)
+    (hclose : ∀ i, Score.Close ε (c.getD i none) (c'.getD i none))
+    (h : IsTopK c K inds) (h' : IsTopK c' K inds') (hsep : sepB m c inds = true) :
+    ∀ (k i : Nat), inds[k]? = some i →
+      (c.getD i none ≠ none → inds'[k]? = some i) ∧
+      (c.getD i none = none → ∀ i', inds'[k]? = some i' → c'.getD i' none = none) :=
+  fun k i hk =>
+    ⟨topk_stable_fin hε hm ⟨hlen, hclose⟩ h h' hsep k i hk,
+     fun hn i' hk' => topk_stable_none hε hm ⟨hlen, hclose⟩ h h' hsep k i i' hk hk' hn⟩
+
+section stable
+variable {σ' : Type} {lm' : LM σ'} {spec' : List Int → List Score} {Rep' : List Int → σ' → Prop}
+  {sel' : Sel}
+
+/-- **C04_skeleton_stable** (one element): two runs with different `topk` tie-breaking, different
+language-model objects / state types and `ε`-close score rows both return a value, and slot by
+slot either both slots are unusable (`-inf`) or both are usable, hold the same counted tokens and
+scores at most `len · ε` apart - provided every selection of the first run has a margin of more
+than `2 (t + 1) ε`. -/
+theorem C04_skeleton_stable {ε : Rat} (hε : 0 ≤ ε) (hsel : SelOK sel) (hsel' : SelOK sel')
+    (hlm : LMOK cfg.V lm spec Rep) (hlm' : LMOK cfg.V lm' spec' Rep')
+    (hclose : SpecClose ε spec spec') (hV : 0 < cfg.V) (hw : 0 < cfg.width)
+    (hrule : cfg.waitNegInf = false) (hL : Waits cfg ∨ SpecLive cfg.V spec) (dflt : σ) (dflt' : σ')
+    {s : σ} {s' : σ'} (hinit : Rep [] s) (hinit' : Rep' [] s') (maxIters : Nat)
+    (hmargin : tieFree (margin ε) sel cfg lm dflt maxIters 0 (initElem s) = true) :
+    ∃ beam beam', search sel cfg lm dflt [s] maxIters = .ok [beam] ∧
+      search sel' cfg lm' dflt' [s'] maxIters = .ok [beam'] ∧ beam.length = beam'.length ∧
+      ∀ (k : Nat) (x x' : Slot), beam[k]? = some x → beam'[k]? = some x' →
+        (x.score = none ↔ x'.score = none) ∧
+        (x.score ≠ none → x.col.take x.len = x'.col.take x'.len ∧
+          Score.Close (accErr ε (x.col.take x.len).length) x.score x'.score) := by
+  obtain ⟨beam, beam', h1, h2, hsame⟩ := search_single_stable hε (m := margin ε) (fun _ => Rat.le_refl)
+    hsel hsel' hlm hlm' hclose hV hw hrule hL dflt dflt' hinit hinit' maxIters hmargin
+  refine ⟨beam, beam', h1, h2, hsame.1, ?_⟩
+  intro k x x' hx hx'
+  obtain ⟨hiff, hpath⟩ := hsame.2 k x x' hx hx'
+  refine ⟨hiff, fun hf => ?_⟩
+  have hf' : x'.score ≠ none := fun h => hf (hiff.mpr h)
+  have hp : x.col.take x.len = x'.col.take x'.len := hpath hf
+  have e1 := C04_score (cfg := cfg) hsel hlm hV hw dflt (inits := [s])
+    (by intro y hy; simp at hy; subst hy; exact hinit) h1 beam (by simp) x (List.mem_of_getElem? hx) hf
+  have e2 := C04_score (cfg := cfg) hsel' hlm' hV hw dflt' (inits := [s'])
+    (by intro y hy; simp at hy; subst hy; exact hinit') h2 beam' (by simp) x'
+    (List.mem_of_getElem? hx') hf'
+  refine ⟨hp, ?_⟩
+  rw [e1, e2, ← hp]
+  exact chain_close hclose _
+
+end stable
+
+section stableFamily
+variable {ι σ' : Type} {specs specs' : ι → List Int → List Score} {Reps : ι → List Int → σ → Prop}
+  {Reps' : ι → List Int → σ' → Prop} {lm' : LM σ'} {sel' : Sel}
+
+theorem view_idx {a b : List Slot}
+    (h : a.map (fun x => (x.col.take x.len, x.score)) = b.map (fun x => (x.col.take x.len, x.score)))
+    {k : Nat} {x : Slot} (hx : a[k]? = some x) :
+    ∃ y, b[k]? = some y ∧ y.col.take y.len = x.col.take x.len ∧ y.score = x.score := by
+  have := congrArg (fun l => l[k]?) h
+  simp only [List.getElem?_map, hx, Option.map_some] at this
+  cases hb : b[k]? with
+  | none => rw [hb] at this; simp at this
+  | some y =>
+    rw [hb] at this
+    simp only [Option.map_some, Option.some.injEq, Prod.mk.injEq] at this
+    exact ⟨y, rfl, this.1.symm, this.2.symm⟩
+
+/-- **C04_skeleton_stable_batch**: the same for element `n` of two joint runs over batches whose
+elements follow different distributions (`specs i` against `specs' i`, entrywise `ε`-close):
+whatever the other elements do, element `n` shows the same counted tokens in the same slots in
+both runs, scores at most `len · ε` apart, provided the selections of element `n`'s own search
+have the margin. -/
+theorem C04_skeleton_stable_batch {ε : Rat} (hε : 0 ≤ ε) (hsel : SelOK sel) (hsel' : SelOK sel')
+    (hlm : ∀ i, LMOK cfg.V lm (specs i) (Reps i)) (hlm' : ∀ i, LMOK cfg.V lm' (specs' i) (Reps' i))
+    (hclose : ∀ i, SpecClose ε (specs i) (specs' i)) (hV : 0 < cfg.V) (hw : 0 < cfg.width)
+    (hrule : cfg.waitNegInf = false) (hL : Waits cfg ∨ ∀ i, SpecLive cfg.V (specs i))
+    (dflt : σ) (dflt' : σ') {inits : List σ} {inits' : List σ'}
+    (hinit : ∀ s ∈ inits, ∃ i, Reps i [] s) (hinit' : ∀ s ∈ inits', ∃ i, Reps' i [] s)
+    (maxIters : Nat) {out out' : List (List Slot)}
+    (h : search sel cfg lm dflt inits maxIters = .ok out)
+    (h' : search sel' cfg lm' dflt' inits' maxIters = .ok out')
+    (n : Nat) (s : σ) (s' : σ') (hn : inits[n]? = some s) (hn' : inits'[n]? = some s')
+    (i : ι) (hi : Reps i [] s) (hi' : Reps' i [] s')
+    (hmargin : tieFree (margin ε) sel cfg lm dflt maxIters 0 (initElem s) = true) :
+    ∃ beamN beamN', out[n]? = some beamN ∧ out'[n]? = some beamN' ∧
+      beamN.length = beamN'.length ∧
+      ∀ (k : Nat) (x x' : Slot), beamN[k]? = some x → beamN'[k]? = some x' →
+        (x.score = none ↔ x'.score = none) ∧
+        (x.score ≠ none → x.col.take x.len = x'.col.take x'.len ∧
+          Score.Close (accErr ε (x.col.take x.len).length) x.score x'.score) := by
+  have hL' : Waits cfg ∨ ∀ i, SpecLive cfg.V (specs' i) :=
+    hL.imp id fun hh i => specLive_of_close (hclose i) (hh i)
+  obtain ⟨b1, bN, s1, o1, v1⟩ := C04_batch hsel hlm hV hw dflt hrule hL hinit maxIters h n s hn
+  obtain ⟨b2, bN', s2, o2, v2⟩ := C04_batch hsel' hlm' hV hw dflt' hrule hL' hinit' maxIters h' n s' hn'
+  obtain ⟨c1, c2, t1, t2, hlen, hall⟩ := C04_skeleton_stable hε hsel hsel' (hlm i) (hlm' i) (hclose i)
+    hV hw hrule (hL.imp id fun hh => hh i) dflt dflt' hi hi' maxIters hmargin
+  rw [s1] at t1
+  rw [s2] at t2
+  simp only [Except.ok.injEq, List.cons.injEq, and_true] at t1 t2
+  subst t1 t2
+  have l1 := congrArg List.length v1
+  have l2 := congrArg List.length v2
+  simp only [List.length_map] at l1 l2
+  refine ⟨bN, bN', o1, o2, by omega, ?_⟩
+  intro k x x' hx hx'
+  obtain ⟨y, hy, yp, ys⟩ := view_idx v1 hx
+  obtain ⟨y', hy', yp', ys'⟩ := view_idx v2 hx'
+  obtain ⟨a1, a2⟩ := hall k y y' hy hy'
+  rw [ys, ys', yp, yp'] at *
+  exact ⟨a1, a2⟩
+
+end stableFamily
+
+/-! ### Non-vacuity of the stability theorems, and the margin cannot be dropped
+
+Second run: a language model with a different state type (the running SUM of the consumed tokens,
+an `Int`, instead of the consumed history), rows perturbed by up to 1/100, and the selection
+`selRev` (ties broken towards the larger index) instead of `selIns`. -/
+
+def pLM : LM Int :=
+  ⟨fun t col st =>
+    let a : Int := if t = 0 then 0 else st + col.getD (t - 1) 0
+    ([some (-(a : Rat) - 1 + 1 / 100), some (-2 - 1 / 100), some (-(3 : Rat) / 2 + 1 / 200)], a)⟩
+
+def pSpec (h : List Int) : List Score :=
+  [some (-(h.sum : Rat) - 1 + 1 / 100), some (-2 - 1 / 100), some (-(3 : Rat) / 2 + 1 / 200)]
+
+/-- the state has summed everything but the newest token -/
+def pRep (h : List Int) (st : Int) : Prop := st = h.dropLast.sum
+
+theorem pLM_ok : LMOK 3 pLM pSpec pRep := by
+  refine ⟨fun _ _ _ => rfl, ?_⟩
+  intro h st col hrep htake
+  have hh : (if h.length = 0 then (0 : Int) else st + col.getD (h.length - 1) 0) = h.sum := by
+    by_cases h0 : h.length = 0
+    · rw [if_pos h0, List.eq_nil_of_length_eq_zero h0]; rfl
+    · rw [if_neg h0, hrep]
+      have hne : h ≠ [] := fun e => h0 (by rw [e]; rfl)
+      have hl : col.getD (h.length - 1) 0 = h.getLast hne := by
+        have hlt : h.length - 1 < h.length := by omega
+        have : (col.take h.length)[h.length - 1]? = col[h.length - 1]? := by
+          rw [List.getElem?_take]; simp [hlt]
+        rw [htake] at this
+        rw [List.getD_eq_getElem?_getD, ← this, List.getLast_eq_getElem, List.getElem?_eq_getElem hlt]
+        rfl
+      rw [hl]
+      conv => rhs; rw [← List.dropLast_append_getLast hne]
+      simp
+  refine ⟨?_, fun v => ?_⟩
+  · show [some (-((if h.length = 0 then (0 : Int) else st + col.getD (h.length - 1) 0 : Int) : Rat) - 1
+        + 1 / 100), some (-2 - 1 / 100), some (-(3 : Rat) / 2 + 1 / 200)] = pSpec h
+    rw [hh]; rfl
+  · show (if h.length = 0 then (0 : Int) else st + col.getD (h.length - 1) 0) = (h ++ [v]).dropLast.sum
+    rw [hh]; simp
+
+theorem pSpec_close : SpecClose (1 / 100) hSpec pSpec := by
+  intro h v
+  match v with
+  | 0 => simp only [hSpec, pSpec, List.getD_cons_zero, Score.Close]; constructor <;> grind
+  | 1 => simp only [hSpec, pSpec, List.getD_cons_succ, List.getD_cons_zero, Score.Close]
+         constructor <;> grind
+  | 2 => simp only [hSpec, pSpec, List.getD_cons_succ, List.getD_cons_zero, Score.Close]
+         constructor <;> grind
+  | n + 3 => simp [hSpec, pSpec, Score.Close]
+
+/-- every selection of the exact run (`hSearch_ok`: pruning at every step) has the margin -/
+theorem hSearch_tieFree : tieFree (margin (1 / 100)) selIns hCfg hLM [] 3 0 (initElem []) = true := by
+  decide +kernel
+
+-- C04_skeleton_stable on this pair of runs: ALL hypotheses together
+example := C04_skeleton_stable (ε := 1 / 100) (cfg := hCfg) (by decide +kernel) C04_selIns_ok selRev_ok hLM_ok pLM_ok
+  pSpec_close (by decide) (by decide) rfl (Or.inr hSpec_live) [] 0 (s := []) (s' := 0) rfl rfl 3
+  hSearch_tieFree
+
+-- and the perturbed run indeed returns different scores for the same two paths
+example : ((search selRev hCfg pLM 0 [0] 3).toOption.map fun out =>
+      out.map fun beam => beam.map fun x => (x.col.take x.len, x.score))
+    = some [[([0, 0, 0], some (-3 + 3 / 100)), ([0, 0, 2], some (-(7 : Rat) / 2 + 1 / 40))]] := by
+  decide +kernel
+
+-- C04_skeleton_stable_batch on two joint runs over a batch of two elements: ALL hypotheses together
+example : True := by
+  have hi : ∀ s ∈ [([] : List Int), []], ∃ _i : Unit, hRep [] s := by
+    intro s hs; simp at hs; subst hs; exact ⟨(), rfl⟩
+  have hi' : ∀ s ∈ [(0 : Int), 0], ∃ _i : Unit, pRep [] s := by
+    intro s hs; simp at hs; subst hs; exact ⟨(), rfl⟩
+  obtain ⟨out, hout⟩ := C04_no_error (cfg := hCfg) (specs := fun _ : Unit => hSpec)
+    (Reps := fun _ => hRep) C04_selIns_ok (fun _ => hLM_ok) (by decide) (by decide) [] rfl
+    (Or.inr fun _ => hSpec_live) hi (by simp) 3
+  obtain ⟨out', hout'⟩ := C04_no_error (cfg := hCfg) (specs := fun _ : Unit => pSpec)
+    (Reps := fun _ => pRep) selRev_ok (fun _ => pLM_ok) (by decide) (by decide) 0 rfl
+    (Or.inr fun _ => specLive_of_close pSpec_close hSpec_live) hi' (by simp) 3
+  have := C04_skeleton_stable_batch (ε := 1 / 100) (cfg := hCfg) (specs := fun _ : Unit => hSpec)
+    (specs' := fun _ => pSpec) (Reps := fun _ => hRep) (Reps' := fun _ => pRep) (by decide +kernel)
+    C04_selIns_ok selRev_ok (fun _ => hLM_ok) (fun _ => pLM_ok) (fun _ => pSpec_close) (by decide)
+    (by decide) rfl (Or.inr fun _ => hSpec_live) [] 0 hi hi' 3 hout hout' 1 [] 0 rfl rfl () rfl rfl
+    hSearch_tieFree
+  trivial
+
+/-- two rows that are 1/100-close but order the two tokens differently -/
+def nearA : LM Unit := ⟨fun _ _ _ => ([some 0, some (-(1 : Rat) / 100)], ())⟩
+def nearB : LM Unit := ⟨fun _ _ _ => ([some (-(1 : Rat) / 100), some 0], ())⟩
+
+/-- **The margin hypothesis cannot be dropped**: two language models whose rows are 1/100-close,
+width 1, one step - the first run keeps token 0, the second token 1; the selection of the first
+run is decided by a margin of 1/100 only, below `2ε`. -/
+theorem C04_margin_needed_counterexample :
+    (∀ v : Nat, Score.Close (1 / 100) ([some 0, some (-(1 : Rat) / 100)].getD v none)
+        ([some (-(1 : Rat) / 100), some 0].getD v none)) ∧
+    ((search selIns ⟨2, 1, none, false, -1, 0, false⟩ nearA () [()] 1).toOption.map fun out =>
+        out.map fun beam => beam.map fun x => x.col.take x.len) = some [[[0]]] ∧
+    ((search selIns ⟨2, 1, none, false, -1, 0, false⟩ nearB () [()] 1).toOption.map fun out =>
+        out.map fun beam => beam.map fun x => x.col.take x.len) = some [[[1]]] ∧
+    tieFree (margin (1 / 100)) selIns ⟨2, 1, none, false, -1, 0, false⟩ nearA () 1 0 (initElem ())
+      = false := by
+  refine ⟨?_, by decide +kernel, by decide +kernel, by decide +kernel⟩
+  intro v
+  match v with
+  | 0 => simp only [List.getD_cons_zero, Score.Close]; constructor <;> grind
+  | 1 => simp only [List.getD_cons_succ, List.getD_cons_zero, Score.Close]; constructor <;> grind
+  | n + 2 => simp [Score.Close]
 
 end PdtVerif.Beam
